@@ -642,7 +642,14 @@ def rule_odometer(ctx, M, fn, pr, store_fns=None):
         whole_scan = False
         if s_src[0] == "agg" and s_src[1].endswith("Range::Range") and P.const_int(s_src[2][0]) == 0:
             hi_s = P.strip(s_src[2][1])
-            whole_scan = hi_s[0] == "call" and hi_s[1].rsplit("::", 1)[-1] == "len" and P.strip(hi_s[2][0]) in (counters, entries)
+
+            def is_players_len(h_):
+                return h_[0] == "call" and h_[1].rsplit("::", 1)[-1] == "len" and h_[2] and P.strip(h_[2][0]) in (counters, entries)
+            whole_scan = is_players_len(hi_s)
+            if hi_s[0] == "call" and hi_s[1] == "std::cmp::min" and len(hi_s[2]) == 2:
+                # zip of the counters with the entry lists (one of each per player): min of the two lengths
+                whole_scan = all(is_players_len(P.strip(a_)) for a_ in hi_s[2]) and \
+                    {P.strip(P.strip(a_)[2][0]) for a_ in hi_s[2]} == {counters, entries}
         if not whole_scan or any(n in ("skip", "take", "step_by", "filter", "skip_while", "take_while") for n in names):
             order_problems.append("the scan for a player with room does not cover every player (0..number of players): a player's "
                                   "remaining combos are never dealt")
